@@ -6,6 +6,9 @@ use crate::macsuites::*;
 use crate::util::*;
 
 pub fn eval(op: &str) -> String {
+    if let Some(r) = crate::adevgen::eval_dev_any(op) {
+        return r;
+    }
     let outs = run_history(op);
     format!("{} ## oracle={}", outs.join(" ; "), oracle_c11(op, &outs))
 }
@@ -53,5 +56,7 @@ pub fn run(tier: &str, seed: u64, dir: &str) {
             sink.case(&op, &eval(&op), "join-history", true);
         }
     }
+    // device level: both front-ends with the scripted radio (see adevgen::add_dev_classes)
+    crate::adevgen::add_dev_classes("C11", &mut rng, &mut sink, thorough, eval);
     sink.finish(dir, "per region: all 256 DLSettings bytes x RxDelay {0,1,2,15} x CFList {none, type 0 with in-band/zero/out-of-band frequencies, type 1 mask, RFU type}, arriving in RX1 or RX2 (full grid in thorough, a quarter in quick); random histories of failed attempts, wrong-key accepts and re-joins from a joined state. The JoinRequest is checked against the §6.2.4 layout and its MIC, the session keys against the §6.2.5 derivation. Non-trivial = every case.", false, serde_json::json!({}));
 }
